@@ -1520,8 +1520,16 @@ def check_reader(o, rows, by_graph, completed, cancelled, missed, g_fin, g_can_s
                             t = ts.get(g["tasks"][i]["name"])
                             if t is not None and t.state.name != "CANCELLED":
                                 partial = True
-                    vid += (".cancel_cascade_incomplete" if partial
-                            else ".unfinished_conditional_graph")
+                    if partial:
+                        vid += ".cancel_cascade_incomplete"
+                    elif len(g_can_any) != len(g_can_sink):
+                        # the known disagreement: a graph with a cancelled non-sink task that never finished is
+                        # "dropped" for the reader but not for the simulator
+                        vid += ".unfinished_conditional_graph"
+                    else:
+                        # reader and simulator agree on which graphs were dropped according to the trace's own
+                        # rows, yet the reader's census differs: the reader mis-reads the trace
+                        vid += ".reader_census_disagrees_with_trace"
             else:
                 vid = "reader.rejects_trace.%s" % type(cause).__name__
             v.append((vid, "CSVReader raised %s: %s (cause %s: %s); graphs without a "
